@@ -500,6 +500,30 @@ impl<'tcx> Cx<'tcx> {
         } else if let Some(n) = tcx.opt_item_name(did) {
             let _ = write!(s, ",\"name\":{}", esc(&n.to_string()));
         }
+        // generic parameter names (parents first), in the order of the generic arguments at call sites
+        {
+            let mut names: Vec<String> = Vec::new();
+            let mut stack = Vec::new();
+            let mut cur = Some(tcx.typeck_root_def_id(did));
+            while let Some(d) = cur {
+                let g = tcx.generics_of(d);
+                stack.push(g);
+                cur = g.parent;
+            }
+            for g in stack.iter().rev() {
+                for p in &g.own_params {
+                    names.push(p.name.to_string());
+                }
+            }
+            s.push_str(",\"generics\":[");
+            for (i, n) in names.iter().enumerate() {
+                if i > 0 {
+                    s.push(',');
+                }
+                s.push_str(&esc(n));
+            }
+            s.push(']');
+        }
         let _ = write!(s, ",\"argc\":{}", body.arg_count);
         // locals
         let mut names: Vec<Option<String>> = vec![None; body.local_decls.len()];
